@@ -173,8 +173,9 @@ TEXT = {
           "given only when 0 is the unique root of the square-free eliminant inside the enclosure. Proved for every integer polynomial, "
           "every assignment of valid algebraic numbers and every number of refinement rounds: the interval evaluation encloses the real "
           "value (ievalM_encloses), refinement keeps the point (refineAll_sound), and the sign answered is the sign of the real value "
-          "(C10_sign_sound; non-zero answers unconditionally, the answer 0 under the hypothesis that the eliminant vanishes at the value: "
-          "the classical resultant property, trusted); the six sign conditions (C10_consistent). Values are accepted only through the "
+          "(C10_sign_exact, unconditional: the resultant property is proved for the model's Sylvester determinant - if both polynomials "
+          "vanish at a point, the determinant does, because the matrix kills the vector of powers (resultant_vanishes) - and lifted "
+          "through the iterated elimination (eliminant_root)); the six sign conditions (C10_consistent). Values are accepted only through the "
           "proved root selection (C07_select_sound). Generator: algebraically dependent tuples (sqrt2, sqrt3, sqrt6; conjugates; cubic "
           "roots), exact zeros, near zeros (zero + 1 scaled by up to 2^40), vanishing leading coefficients, a family stressing the "
           "root-separation bound of the C zero test, 20% under the reversed variable order.",
